@@ -2246,6 +2246,12 @@ func (sc *serverConn) newStream(id, pusherID uint32, state streamState) *stream 
 	}
 
 	ctx, cancelCtx := context.WithCancel(sc.baseCtx)
+	if md, ok := metadata.FromContext(sc.baseCtx); ok {
+		// The serve goroutine keeps recording the client's frames in md while
+		// handler goroutines read it: every request gets its own copy of what
+		// was captured up to (and including) its HEADERS frame.
+		ctx = metadata.NewContextWithSnapshot(ctx, md)
+	}
 	st := &stream{
 		sc:        sc,
 		id:        id,
